@@ -15,10 +15,10 @@ import random
 from .common import Nat, Raw, coq
 
 FN_NAMES = {0: 'relu', 1: 'add', 2: 'neg', 3: 'mul2', 4: 'clamp(method)', 5: 'abs(method)', 6: 'flatten(0,0)(method)', 10: 'add-branch-input(residual)'}
-LAYER_KINDS = ['conv1', 'conv3', 'conv3nb', 'dw', 'relu', 'id', 'maxpool']
+LAYER_KINDS = ['conv1', 'conv3', 'conv3nb', 'dw', 'relu', 'id', 'maxpool', 'bn']
 
 
-def _rand_layer(rng, allow=('conv1', 'conv3', 'conv3nb', 'dw', 'relu', 'maxpool')):
+def _rand_layer(rng, allow=('conv1', 'conv3', 'conv3nb', 'dw', 'relu', 'maxpool', 'bn', 'bn')):
     return rng.choice(allow)
 
 
@@ -36,7 +36,7 @@ def gen_branch(rng, force_kind=None):
         if rng.random() < 0.35:
             ops.append(['f', rng.choice([0, 2, 5, 6])])           # starts with a non-module op
         for j in range(nm):
-            ops.append(['m', _rand_layer(rng, ('conv1', 'conv3', 'dw') if j == 0 else ('conv1', 'conv3', 'conv3nb', 'dw', 'maxpool'))])
+            ops.append(['m', _rand_layer(rng, ('conv1', 'conv3', 'dw') if j == 0 else ('conv1', 'conv3', 'conv3nb', 'dw', 'maxpool', 'bn'))])
             if j < nm - 1:
                 for _ in range(rng.choice([1, 1, 1, 2, 0])):      # one (sometimes two, sometimes none) op in the middle
                     ops.append(['f', rng.choice([0, 0, 1, 2, 3, 4, 5, 6])])
@@ -273,6 +273,8 @@ def build(d, torch):
             return nn.ReLU()
         if kind == 'id':
             return nn.Identity()
+        if kind == 'bn':
+            return nn.BatchNorm2d(C)
         if kind == 'maxpool':
             return nn.MaxPool2d(3, stride=1, padding=1)
         if kind == 'pool2':
@@ -381,6 +383,11 @@ def build(d, torch):
             if name.endswith('sn_combiner.alpha'):
                 continue
             p.copy_(torch.randint(-1, 3, p.shape, generator=g).double())
+        # BatchNorm running statistics: non-trivial, so that an extra train-mode forward (which updates them) is visible
+        for mod in m.modules():
+            if isinstance(mod, nn.BatchNorm2d):
+                mod.running_mean.copy_(torch.randint(-2, 3, mod.running_mean.shape, generator=g).double())
+                mod.running_var.copy_(torch.randint(1, 5, mod.running_var.shape, generator=g).double() / 2)
     x = torch.randint(-3, 4, (2, C, H, W), generator=g).double()
     ex = torch.zeros(1, C, H, W, dtype=torch.float64)
     return m, x, ex
